@@ -47,6 +47,7 @@ func init() {
 
 func runC23(c *Ctx) {
 	u, r := c.U, c.R
+	seedfixC23(c)
 	fn := c.Fn("R-AUTH-STATUS", "(*HttpServer).authenticate")
 	if fn != nil {
 		r.Floor("R-AUTH-STATUS", 3)
